@@ -1,7 +1,7 @@
 (* C01 proofs, part 3: the yield counters, input order, mate synchronisation. *)
 From Coq Require Import ZArith List Bool Lia Arith Sorted.
 Import ListNotations.
-From SCMO Require Import Lib.Val Model.C01 Proofs.C01 Proofs.C01_b.
+From SCMO Require Import Lib.Val Lib.C01Shape Model.C01 Proofs.C01 Proofs.C01_b.
 Open Scope Z_scope.
 
 Lemma bump_length j ys : length (bump j ys) = length ys.
@@ -62,10 +62,11 @@ Proof.
 Qed.
 
 Section Loader.
+  Variable sh : shape.
   Variable strats : list strategy.
   Variable rejhdr : read -> str -> hout.
   Variable cfg : config.
-  Hypothesis repaired : c_legacy cfg = false.
+  Hypothesis wf : wf_shape sh = true.
 
   Definition accepted_by (j : nat) (pairs : list pair) : list pair :=
     filter (fun r => is_accept cfg (nth j strats dflt r)) pairs.
@@ -87,11 +88,11 @@ Section Loader.
 
   (* COUNTERS: strategyYields[j] = number of consumed pairs strategy j accepted *)
   Lemma yields_count pairs j :
-    res_crashed (loader strats rejhdr cfg pairs) = false -> (j < length strats)%nat ->
-    nth j (res_yields (loader strats rejhdr cfg pairs)) 0 = Z.of_nat (length (accepted_by j (consumed cfg pairs))).
+    res_crashed (loader sh strats rejhdr cfg pairs) = false -> (j < length strats)%nat ->
+    nth j (res_yields (loader sh strats rejhdr cfg pairs)) 0 = Z.of_nat (length (accepted_by j (consumed sh cfg pairs))).
   Proof.
-    intros Hc Hj. destruct (loader_decl strats rejhdr cfg repaired pairs Hc) as (_ & _ & -> & _).
-    destruct (yields_pairs_spec j Hj (consumed cfg pairs) (repeat 0 (length strats))) as [_ H].
+    intros Hc Hj. destruct (loader_decl sh strats rejhdr cfg wf pairs Hc) as (_ & _ & -> & _).
+    destruct (yields_pairs_spec j Hj (consumed sh cfg pairs) (repeat 0 (length strats))) as [_ H].
     - rewrite repeat_length. lia.
     - rewrite H. rewrite nth_repeat. lia.
   Qed.
@@ -123,17 +124,17 @@ Section Loader.
   Qed.
 
   Lemma counters_written pairs j :
-    res_crashed (loader strats rejhdr cfg pairs) = false -> (j < length strats)%nat -> (0 < target_width cfg)%nat ->
-    (forall r, In r (consumed cfg pairs) -> step_ok cfg r (nth j strats dflt)) ->
-    nth j (res_yields (loader strats rejhdr cfg pairs)) 0 =
-    Z.of_nat (length (filter (written_by j) (res_trace (loader strats rejhdr cfg pairs)))).
+    res_crashed (loader sh strats rejhdr cfg pairs) = false -> (j < length strats)%nat -> (0 < target_width cfg)%nat ->
+    (forall r, In r (consumed sh cfg pairs) -> step_ok cfg r (nth j strats dflt)) ->
+    nth j (res_yields (loader sh strats rejhdr cfg pairs)) 0 =
+    Z.of_nat (length (filter (written_by j) (res_trace (loader sh strats rejhdr cfg pairs)))).
   Proof.
     intros Hc Hj Hw Hok. rewrite (yields_count pairs j Hc Hj).
-    destruct (loader_decl strats rejhdr cfg repaired pairs Hc) as (Hex & -> & _ & _).
+    destruct (loader_decl sh strats rejhdr cfg wf pairs Hc) as (Hex & -> & _ & _).
     rewrite (written_pairs j Hj Hw); [reflexivity|].
     intros r Hr. split; [now apply Hok|].
     destruct (step_crash rejhdr cfg r (nth j strats dflt)) eqn:Hsc; [|reflexivity].
-    assert (existsb (pair_crash strats rejhdr cfg) (consumed cfg pairs) = true).
+    assert (existsb (pair_crash strats rejhdr cfg) (consumed sh cfg pairs) = true).
     { apply existsb_exists. exists r. split; [assumption|]. unfold pair_crash. apply existsb_exists.
       exists (nth j strats dflt). split; [now apply nth_In|assumption]. }
     congruence.
@@ -168,10 +169,10 @@ Section Loader.
   Qed.
 
   Lemma file_sorted pairs t cell m :
-    res_crashed (loader strats rejhdr cfg pairs) = false ->
-    StronglySorted ev_le (file_events (res_trace (loader strats rejhdr cfg pairs)) t cell m).
+    res_crashed (loader sh strats rejhdr cfg pairs) = false ->
+    StronglySorted ev_le (file_events (res_trace (loader sh strats rejhdr cfg pairs)) t cell m).
   Proof.
-    intros Hc. destruct (loader_decl strats rejhdr cfg repaired pairs Hc) as (_ & -> & _ & _).
+    intros Hc. destruct (loader_decl sh strats rejhdr cfg wf pairs Hc) as (_ & -> & _ & _).
     unfold file_events. apply SSorted_filter. apply pairs_sorted.
   Qed.
 
@@ -271,30 +272,30 @@ Section Loader.
   Qed.
 
   Lemma mate_sync pairs t cell m1 m2 :
-    res_crashed (loader strats rejhdr cfg pairs) = false ->
-    (forall r f, In r (consumed cfg pairs) -> In f strats -> step_ok2 r f) ->
+    res_crashed (loader sh strats rejhdr cfg pairs) = false ->
+    (forall r f, In r (consumed sh cfg pairs) -> In f strats -> step_ok2 r f) ->
     (m1 < width t)%nat -> (m2 < width t)%nat ->
-    map lab (file_events (res_trace (loader strats rejhdr cfg pairs)) t cell m1) =
-    map lab (file_events (res_trace (loader strats rejhdr cfg pairs)) t cell m2).
+    map lab (file_events (res_trace (loader sh strats rejhdr cfg pairs)) t cell m1) =
+    map lab (file_events (res_trace (loader sh strats rejhdr cfg pairs)) t cell m2).
   Proof.
-    intros Hc Hall H1 H2. destruct (loader_decl strats rejhdr cfg repaired pairs Hc) as (_ & -> & _ & _).
+    intros Hc Hall H1 H2. destruct (loader_decl sh strats rejhdr cfg wf pairs Hc) as (_ & -> & _ & _).
     unfold file_events. now apply pairs_sync.
   Qed.
 
   (* processedReadPairs: the number of consumed pairs, and its closed form *)
   Lemma processed_spec pairs :
-    res_crashed (loader strats rejhdr cfg pairs) = false ->
-    res_processed (loader strats rejhdr cfg pairs) = Z.of_nat (length (consumed cfg pairs)) /\
-    res_processed (loader strats rejhdr cfg pairs) =
+    res_crashed (loader sh strats rejhdr cfg pairs) = false ->
+    res_processed (loader sh strats rejhdr cfg pairs) = Z.of_nat (length (consumed sh cfg pairs)) /\
+    res_processed (loader sh strats rejhdr cfg pairs) =
       match pairs, c_max cfg with
       | [], _ => 0
       | _, None => Z.of_nat (length pairs)
-      | _, Some m => Z.min (Z.of_nat (length pairs)) (Z.max 1 m)
+      | _, Some m => Z.min (Z.of_nat (length pairs)) (Z.max (min_consumed sh) m)
       end /\
-    exists k, consumed cfg pairs = firstn k pairs.
+    exists k, consumed sh cfg pairs = firstn k pairs.
   Proof.
     intros Hc. split; [|split].
-    - now destruct (loader_decl strats rejhdr cfg repaired pairs Hc) as (_ & _ & _ & ->).
+    - now destruct (loader_decl sh strats rejhdr cfg wf pairs Hc) as (_ & _ & _ & ->).
     - now apply processed_formula.
     - apply consumed_from_prefix.
   Qed.
